@@ -5,6 +5,7 @@ package sym
 import (
 	"fmt"
 	"math/big"
+	"sort"
 	"strings"
 )
 
@@ -191,6 +192,7 @@ func (st *Store) And(xs ...*Term) *Term {
 	case 1:
 		return out[0]
 	}
+	sortTerms(out)
 	return st.mk("and", BoolSort, "", nil, 0, 0, out...)
 }
 
@@ -227,7 +229,12 @@ func (st *Store) Or(xs ...*Term) *Term {
 	case 1:
 		return out[0]
 	}
+	sortTerms(out)
 	return st.mk("or", BoolSort, "", nil, 0, 0, out...)
+}
+
+func sortTerms(ts []*Term) {
+	sort.Slice(ts, func(i, j int) bool { return ts[i].id < ts[j].id })
 }
 
 func (st *Store) Implies(a, b *Term) *Term { return st.Or(st.Not(a), b) }
@@ -321,6 +328,11 @@ func (st *Store) bvBin(op string, a, b *Term) *Term {
 		}
 		if op == "bvor" && a == b {
 			return a
+		}
+		if op == "bvor" {
+			if r := st.orPieces(a, b); r != nil {
+				return r
+			}
 		}
 		if op == "bvxor" && a == b {
 			return st.BVConst(0, w)
@@ -487,6 +499,29 @@ func (st *Store) Extract(a *Term, hi, lo int) *Term {
 	}
 	if a.op == "extract" {
 		return st.Extract(a.args[0], hi+a.lo, lo+a.lo)
+	}
+	if a.op == "bvlshr" && a.args[1].op == "const" && a.args[1].val.IsInt64() {
+		c := int(a.args[1].val.Int64())
+		if hi+c < a.sort.W {
+			return st.Extract(a.args[0], hi+c, lo+c)
+		}
+	}
+	if a.op == "bvshl" && a.args[1].op == "const" && a.args[1].val.IsInt64() {
+		c := int(a.args[1].val.Int64())
+		if lo >= c && c < a.sort.W {
+			return st.Extract(a.args[0], hi-c, lo-c)
+		}
+		if hi < c {
+			return st.BVConst(0, w)
+		}
+	}
+	if a.op == "bvor" || a.op == "bvand" || a.op == "bvxor" {
+		// push extraction through bitwise ops when it simplifies both sides to small terms
+		l := st.Extract(a.args[0], hi, lo)
+		r := st.Extract(a.args[1], hi, lo)
+		if (l.op == "const" || r.op == "const") || (l.op != "extract" && r.op != "extract") {
+			return st.bvBin(a.op, l, r)
+		}
 	}
 	if a.op == "concat" {
 		// args[0] is the high part
@@ -664,4 +699,94 @@ func (t *Term) collectVars(seen map[int]bool, out *[]*Term) {
 	for _, a := range t.args {
 		a.collectVars(seen, out)
 	}
+}
+
+
+// ---- recognition of values assembled from shifted pieces ----
+
+type piece struct {
+	t   *Term
+	off int
+}
+
+// pieces decomposes t (width W) into non-overlapping placed parts with
+// zeros elsewhere; ok=false if t is not of that shape.
+func (st *Store) pieces(t *Term) ([]piece, bool) {
+	switch t.op {
+	case "const":
+		if t.val.Sign() == 0 {
+			return nil, true
+		}
+		return nil, false
+	case "zero_extend":
+		sub, ok := st.pieces(t.args[0])
+		if ok && len(sub) > 0 {
+			return sub, true
+		}
+		return []piece{{t.args[0], 0}}, true
+	case "bvshl":
+		if t.args[1].op != "const" || !t.args[1].val.IsInt64() {
+			return nil, false
+		}
+		c := int(t.args[1].val.Int64())
+		sub, ok := st.pieces(t.args[0])
+		if !ok {
+			return nil, false
+		}
+		var out []piece
+		for _, p := range sub {
+			if p.off+c+p.t.sort.W > t.sort.W {
+				return nil, false
+			}
+			out = append(out, piece{p.t, p.off + c})
+		}
+		return out, true
+	case "concat":
+		// treat as atomic full-width piece
+		return []piece{{t, 0}}, true
+	}
+	return nil, false
+}
+
+func (st *Store) orPieces(a, b *Term) *Term {
+	shaped := func(t *Term) bool { return t.op == "zero_extend" || t.op == "bvshl" }
+	if !shaped(a) && !shaped(b) {
+		return nil
+	}
+	pa, oka := st.pieces(a)
+	pb, okb := st.pieces(b)
+	if !oka || !okb {
+		return nil
+	}
+	all := append(append([]piece(nil), pa...), pb...)
+	sort.Slice(all, func(i, j int) bool { return all[i].off < all[j].off })
+	W := a.sort.W
+	var res *Term
+	cur := 0
+	for _, p := range all {
+		if p.off < cur {
+			return nil // overlap
+		}
+		if p.off > cur {
+			z := st.BVConst(0, p.off-cur)
+			if res == nil {
+				res = z
+			} else {
+				res = st.Concat(z, res)
+			}
+		}
+		if res == nil {
+			res = p.t
+		} else {
+			res = st.Concat(p.t, res)
+		}
+		cur = p.off + p.t.sort.W
+	}
+	if res == nil {
+		return st.BVConst(0, W)
+	}
+	if cur < W {
+		res = st.ZeroExt(res, W-cur)
+	}
+	return res
 }
